@@ -76,8 +76,8 @@ PROPS: Dict[str, dict] = {
 # A property whose statement quantifies over storage layouts / representation levels / composite operations presupposes
 # the properties that make those layouts and representations faithful: a violation of one of *those* is also a violation of it.
 DEPENDS: Dict[str, tuple] = {
-    "C01": ("C02", "C08"),
-    "C03": ("C01", "C02", "C08"),
+    "C01": ("C02", "C08", "C10"),        # operations combine, change representation and resize the target before acting
+    "C03": ("C01", "C02", "C08", "C10"),
     "C04": ("C02", "C08"),
     "C05": ("C02", "C08"),
     "C06": ("C02", "C08"),
